@@ -11,7 +11,8 @@ from contracts.lib import *
 import z3
 
 FB = "ioflo/base/building.py"
-classdecl("ActB", fields=dict(actor=STR, p_state=STR, p_stateField=STR, p_comparison=STR, p_goal=REAL, p_tolerance=REAL))
+classdecl("ActB", fields=dict(actor=STR, p_state=STR, p_stateField=STR, p_comparison=STR, p_goal=REAL, p_tolerance=REAL,
+                              p_goalPath=STR, p_goalField=STR))
 classdecl("NamedB", fields=dict(name=STR))
 classdecl("BuilderB", file=FB, fields=dict(currentFramer=Ref("NamedB"), currentFrame=Ref("NamedB"),
                                            currentHuman=STR, currentCount=INT))
@@ -23,9 +24,12 @@ def _act_ctor(E, cv, args, kwargs):
     a = RefV(E.new_ref(), "ActB", nn=True)
     E.wr_field(a, "actor", kwargs["actor"])
     parms = kwargs.get("parms") or {}
-    for k in ("state", "stateField", "comparison", "goal", "tolerance"):
+    for k in ("state", "stateField", "comparison", "goal", "tolerance", "goalField"):
         if k in parms:
-            E.wr_field(a, "p_" + k, parms[k])
+            if k == "goal" and kind_of(parms[k]) == "str":
+                E.wr_field(a, "p_goalPath", parms[k])      # an indirect need's goal is a share path
+            else:
+                E.wr_field(a, "p_" + k, parms[k])
     return a
 
 
@@ -39,7 +43,7 @@ def _act_parms(E, a):
 
 
 classdecl("odict", fields={})       # needing.Need.Registry (membership test only)
-REG.classes["odict"].hooks[("ctor", None)] = lambda E, cv, a, k: {"NeedDirect": 1, "NeedIndirect": 1}
+REG.classes["odict"].hooks[("ctor", None)] = lambda E, cv, a, k: {"NeedDirect": 1, "NeedIndirect": 1, "NeedBoolean": 1}
 REG.assume_note("C11 builder: acting.Act(...) is an opaque constructor that stores actor and the parameter table; "
                 "'NeedDirect' is registered in needing.Need.Registry (the membership test is assumed true: the class "
                 "is defined in needing.py and registered by its metaclass)")
@@ -68,3 +72,52 @@ contract(FB, "Builder.makeImplicitDirectFramerNeed", "C11",
              "result.p_comparison == comparison", "result.p_goal == goal", "result.p_tolerance == tolerance",
              "result.actor == 'NeedDirect'"],
          raises={"ParseError": ["False"]}, returns=Ref("ActB"))
+
+
+# ---------------------------------------------------------------- C21 (builder side): a written framer-clock comparison
+# `elapsed|recurred <op> goal [+- tol]` / `... <op> <field> in <share>` becomes the need that compares exactly the
+# written pieces (seeded change seeded/C21b: the goal FIELD of an indirect goal was replaced by the state field)
+contract(FB, "Builder.makeIndirectNeed", "C21,C11",
+         params=dict(P, statePath=STR, stateField=STR, comparison=STR, goalPath=STR, goalField=STR, tolerance=REAL),
+         modifies=[], frame=False,
+         ensures=["fresh(result)", "result.actor == 'NeedIndirect'", "result.p_state == statePath",
+                  "result.p_stateField == stateField", "result.p_comparison == comparison",
+                  "result.p_goalPath == goalPath", "result.p_goalField == goalField", "result.p_tolerance == tolerance"],
+         raises={"ParseError": ["False"]}, returns=Ref("ActB"))
+
+
+def _parser(name, tys):
+    """an opaque token parser of the Builder: returns arbitrary values of the given types; the values are recorded
+    as ghost g_<name>_<k> so that the post-condition can say WHICH parsed piece goes WHERE"""
+    def attr(E, obj):
+        def m(E2, *args, **kwargs):
+            out = []
+            for k, ty in enumerate(tys):
+                v = E2.fresh_val("parsed_%s_%d" % (name, k), ty)
+                E2.ghost["g_%s_%d" % (name, k)] = v
+                out.append(v)
+            return tuple(out)
+        m._specfunc = True
+        return m
+    return attr
+
+
+REG.classes["BuilderB"].hooks[("getattr", "parseComparisonReq")] = _parser("cmp", (STR, INT))
+REG.classes["BuilderB"].hooks[("getattr", "parseFramerNeedGoal")] = _parser("goal", (BOOL, REAL, STR, STR, INT))
+REG.classes["BuilderB"].hooks[("getattr", "parseTolerance")] = _parser("tol", (REAL, INT))
+REG.assume_note("C21 builder: parseComparisonReq / parseFramerNeedGoal / parseTolerance (token parsing) are opaque: they "
+                "return arbitrary pieces; what is proved is that makeFramerNeed puts each parsed piece into the "
+                "matching parameter of the need it creates")
+
+contract(FB, "Builder.makeFramerNeed", "C21,C11",
+         params=dict(P, name=STR, tokens=List(STR), index=INT),
+         modifies=[], frame=False,
+         ensures=[
+             "result[1] == g_tol_1",
+             "result[0].p_state == 'framer.me.state.' + name and result[0].p_stateField == 'value'",
+             "result[0].p_comparison == g_cmp_0 and result[0].p_tolerance == g_tol_0",
+             # direct goal: the written value; indirect goal: the written share path AND the written goal field
+             "implies(g_goal_0, result[0].actor == 'NeedDirect' and result[0].p_goal == g_goal_1)",
+             "implies(not g_goal_0, result[0].actor == 'NeedIndirect' and result[0].p_goalPath == g_goal_2 and "
+             "result[0].p_goalField == g_goal_3)"],
+         raises={"ParseError": ["False"]}, returns=Tup(Ref("ActB"), INT))
